@@ -85,3 +85,62 @@ Fixpoint go_loop {S : Type} (fuel : nat) (step : S -> loop_step S) (s : S) : opt
                      | LoopPanic => None
                      end
   end.
+
+(* ---- byte slices with capacity ----
+   A []byte value whose capacity matters is the pair (visible part, spare part): the spare part is what
+   lies in the array between len and cap (old contents: re-slicing up to cap makes it visible again).
+   Slices of a slice alias it; the translator only lets them be read (or rebinds the parent: copy, v[i] = c). *)
+Definition gslice : Type := (bytes * bytes)%type.
+Definition sl_bytes (s : gslice) : bytes := fst s.
+Definition sl_all (s : gslice) : bytes := fst s ++ snd s.
+Definition sl_len (s : gslice) : Z := Z.of_nat (List.length (fst s)).
+Definition sl_cap (s : gslice) : Z := Z.of_nat (List.length (fst s) + List.length (snd s)).
+(* s[:b], 0 <= b <= cap *)
+Definition sl_to (s : gslice) (b : Z) : option gslice :=
+  if (b <? 0) || (sl_cap s <? b) then None
+  else Some (firstn (Z.to_nat b) (sl_all s), skipn (Z.to_nat b) (sl_all s)).
+(* s[a:], 0 <= a <= len *)
+Definition sl_from (s : gslice) (a : Z) : option gslice :=
+  if (a <? 0) || (sl_len s <? a) then None else Some (skipn (Z.to_nat a) (fst s), snd s).
+(* s[a:b], 0 <= a <= b <= cap *)
+Definition sl_range (s : gslice) (a b : Z) : option gslice :=
+  if (a <? 0) || (b <? a) || (sl_cap s <? b) then None
+  else Some (firstn (Z.to_nat (b - a)) (skipn (Z.to_nat a) (sl_all s)), skipn (Z.to_nat b) (sl_all s)).
+Definition sl_at (s : gslice) (i : Z) : option Z := str_at (fst s) i.
+(* s[i] = c *)
+Definition sl_set (s : gslice) (i c : Z) : option gslice :=
+  if (i <? 0) || (sl_len s <=? i) then None
+  else Some (firstn (Z.to_nat i) (fst s) ++ zb c :: skipn (Z.to_nat i + 1) (fst s), snd s).
+(* copy(dst[a:], src): the count and dst afterwards; None = dst[a:] is out of range *)
+Definition sl_copy_at (dst : gslice) (a : Z) (src : bytes) : option (Z * gslice) :=
+  if (a <? 0) || (sl_len dst <? a) then None
+  else let n := Nat.min (List.length (fst dst) - Z.to_nat a) (List.length src) in
+       Some (Z.of_nat n, (firstn (Z.to_nat a) (fst dst) ++ firstn n src ++ skipn (Z.to_nat a + n) (fst dst), snd dst)).
+(* append(s, p...) when p fits into the spare part (None: it would reallocate - not modelled) *)
+Definition sl_append_in (s : gslice) (p : bytes) : option gslice :=
+  if (List.length p <=? List.length (snd s))%nat then Some (fst s ++ p, skipn (List.length p) (snd s)) else None.
+
+(* how a function with effects and panics ends: normally with its results and the state, with a run-time
+   range panic, or with panic(v); the state is the one it leaves behind *)
+Inductive bres (R S : Type) : Type := BOk (r : R) (st : S) | BRange (st : S) | BPanic (p : bytes) (st : S).
+Arguments BOk {R S} r st. Arguments BRange {R S} st. Arguments BPanic {R S} p st.
+
+(* ---- writes to maps (association lists; look-ups take the first binding) ----
+   m[k] = v: the binding of k is replaced if there is one, otherwise (k, v) is added at the end *)
+Fixpoint mapZ_replace {V} (m : list (Z * V)) (k : Z) (v : V) : list (Z * V) :=
+  match m with
+  | [] => []
+  | (k', v') :: t => if k' =? k then (k', v) :: t else (k', v') :: mapZ_replace t k v
+  end.
+Definition mapZ_set {V} (m : list (Z * V)) (k : Z) (v : V) : list (Z * V) :=
+  match lookupZ m k with None => m ++ [(k, v)] | Some _ => mapZ_replace m k v end.
+Fixpoint mapB_replace {V} (m : list (bytes * V)) (k : bytes) (v : V) : list (bytes * V) :=
+  match m with
+  | [] => []
+  | (k', v') :: t => if bytes_eqb k' k then (k', v) :: t else (k', v') :: mapB_replace t k v
+  end.
+Definition mapB_set {V} (m : list (bytes * V)) (k : bytes) (v : V) : list (bytes * V) :=
+  match lookupB m k with None => m ++ [(k, v)] | Some _ => mapB_replace m k v end.
+(* m[i][k] = v on a map of maps: Go panics when the row m[i] is missing (assignment to entry in nil map) *)
+Definition map2_set {V} (m : list (Z * list (Z * V))) (i k : Z) (v : V) : option (list (Z * list (Z * V))) :=
+  match lookupZ m i with None => None | Some row => Some (mapZ_replace m i (mapZ_set row k v)) end.
